@@ -29,6 +29,11 @@
 (* checker shows Accepts => WellFormed over all configurations in the      *)
 (* bounds; the conformance harness shows real Load = Accepts.              *)
 (*                                                                         *)
+(* Below this abstraction (not modelled, exercised by the structural       *)
+(* corruptions of harness/c17 TestRobust): the YAML encoding itself - null *)
+(* list elements, explicit nulls, anchors, scalar types - and the bodies   *)
+(* of matchers, inhibit rules and time intervals.                          *)
+(*                                                                         *)
 (* The coordinator (second half): the file on disk, the configuration      *)
 (* the subscribers run with, and what the coordinator reports.             *)
 (***************************************************************************)
